@@ -39,6 +39,13 @@ type op struct {
 	MayFail bool   `json:"mayfail,omitempty"`
 }
 
+// mutation is one ref mutation between two collections. Root names the root class that alone keeps old data alive afterwards.
+type mutation struct {
+	Name string `json:"name"`
+	Root string `json:"root,omitempty"` // tag | workingset | stash | mergestate | "" (no such effect)
+	Ops  []op   `json:"ops"`
+}
+
 type gcSpec struct {
 	Mode    string `json:"mode"` // default | full | shallow
 	Archive int    `json:"archive"`
@@ -72,8 +79,11 @@ type c08plan struct {
 	RebaseRows    []string `json:"rebase_rows,omitempty"` // rows the rebased commits insert into t0 (rendered like Rows.Sorted)
 	RebaseVariant string   `json:"rebase_variant,omitempty"`
 	MergeVariant  string   `json:"merge_variant,omitempty"`
-	Remote        string   `json:"remote,omitempty"`
-	TxRows        int      `json:"tx_rows,omitempty"`
+	// Gaps[k] = ref mutations applied between collection k+1 and k+2: they move chunks that an earlier collection put into
+	// the old generation (branch-reachable then) under roots of the new-generation class (tag, working set, stash, merge state)
+	Gaps   [2][]mutation `json:"gaps"`
+	Remote string        `json:"remote,omitempty"`
+	TxRows int           `json:"tx_rows,omitempty"`
 }
 
 // replay text for `vrepo sql <file>`
@@ -81,6 +91,17 @@ func (p *c08plan) text() []string {
 	out := []string{"create database " + p.DB}
 	for _, o := range p.Ops {
 		out = append(out, "@"+o.Sess+" "+strings.ReplaceAll(o.SQL, "\n", `\n`))
+	}
+	for k, g := range p.GCs {
+		out = append(out, "# (sessions tx/tm stay open; the others are closed here)", "@gc"+fmt.Sprint(k)+" "+g.call())
+		if k < 2 {
+			for _, m := range p.Gaps[k] {
+				out = append(out, "# mutation "+m.Name)
+				for _, o := range m.Ops {
+					out = append(out, "@"+o.Sess+" "+o.SQL)
+				}
+			}
+		}
 	}
 	return out
 }
@@ -298,13 +319,61 @@ func genC08(r *rand.Rand, i int, remoteDir string) *c08plan {
 	if feat("stats") {
 		add("m", "analyze table t0")
 	}
+	// branches whose commits the first collections move into the old generation; the gap mutations below re-home them
+	ogb := func(name string, stmts ...string) {
+		add("og", "call dolt_checkout('-b','"+name+"','main')")
+		for _, q := range stmts {
+			add("og", q)
+		}
+	}
+	ogb("og_tag", fmt.Sprintf("insert into t0 values (6100,1,'%s')", randStr(r, 120)), "call dolt_commit('-Am','ogtag1')")
+	ogb("og_ws", fmt.Sprintf("insert into t0 values (6200,1,'%s')", randStr(r, 90)), "call dolt_commit('-Am','ogws1')",
+		fmt.Sprintf("insert into t0 values (6201,1,'%s')", randStr(r, 150)), "update t0 set a = a + 1 where pk < 4", "call dolt_commit('-Am','ogws2')")
+	ogb("og_st", fmt.Sprintf("insert into t0 values (6300,1,'%s')", randStr(r, 90)), "call dolt_commit('-Am','ogst1')",
+		fmt.Sprintf("insert into t0 values (6301,1,'%s')", randStr(r, 150)), "call dolt_commit('-Am','ogst2')")
+	ogb("og_mo", "update t0 set a = 100700 where pk = 2", fmt.Sprintf("insert into t0 values (6500,1,'%s')", randStr(r, 120)), "call dolt_commit('-Am','ogmo1')")
+	ogb("og_m", "update t0 set a = 100701 where pk = 2", "call dolt_commit('-Am','ogm1')")
+	ogb("og_back", fmt.Sprintf("insert into t0 values (6400,1,'%s')", randStr(r, 90)), "call dolt_commit('-Am','ogback1')",
+		fmt.Sprintf("insert into t0 values (6401,1,'%s')", randStr(r, 150)), "call dolt_commit('-Am','ogback2')")
+	ogb("og_src", fmt.Sprintf("insert into t0 values (6600,1,'%s')", randStr(r, 90)), "call dolt_commit('-Am','ogsrc1')")
+	add("og", "call dolt_checkout('main')")
+	add("og", "call dolt_tag('vdel','og_back~1')")
+	muts := []mutation{
+		{Name: "tag-then-delete-branch", Root: "tag", Ops: []op{{Sess: "mt", SQL: "call dolt_tag('vog','og_tag','-m','keeps og_tag alive')"}, {Sess: "mt", SQL: "call dolt_branch('-D','og_tag')"}}},
+		{Name: "soft-reset", Root: "workingset", Ops: []op{{Sess: "mw", SQL: "call dolt_checkout('og_ws')"}, {Sess: "mw", SQL: "call dolt_reset('--soft','HEAD~1')"}}},
+		{Name: "stash-then-drop-commit", Root: "stash", Ops: []op{{Sess: "ms", SQL: "call dolt_checkout('og_st')"}, {Sess: "ms", SQL: "update t0 set b = 'dirty-og' where pk = 3"},
+			{Sess: "ms", SQL: "call dolt_stash('push','s2')"}, {Sess: "ms", SQL: "call dolt_reset('--hard','HEAD~1')"}}},
+		{Name: "conflicted-merge-then-delete-source", Root: "mergestate", Ops: []op{{Sess: "mm", SQL: "call dolt_checkout('og_m')"}, {Sess: "mm", SQL: "select 1", Snap: "ogmerge.pre"},
+			{Sess: "mm", SQL: "set @@dolt_allow_commit_conflicts = 1"}, {Sess: "mm", SQL: "call dolt_merge('og_mo')"}, {Sess: "mm2", SQL: "call dolt_branch('-D','og_mo')"}}},
+		{Name: "tag-then-branch-f-backwards", Root: "tag", Ops: []op{{Sess: "mb", SQL: "call dolt_tag('vback','og_back')"}, {Sess: "mb", SQL: "call dolt_branch('-f','og_back','og_back~1')"}}},
+		{Name: "delete-tag", Ops: []op{{Sess: "md", SQL: "call dolt_tag('-d','vdel')"}}},
+		{Name: "branch-from-old-then-delete-original", Ops: []op{{Sess: "mc", SQL: "call dolt_branch('og_copy','og_src')"}, {Sess: "mc", SQL: "call dolt_branch('-D','og_src')"}}},
+	}
 	// GC sequence: two session-aware collections (repositories run concurrently) and one with the kill_connections
-	// controller (run exclusively). Modes rotate with i so that a quick run covers every mode x archive level.
+	// controller (run exclusively). A default collection comes first for two thirds of the repositories (it fills the old
+	// generation), and every repository has a --full collection after its gaps: #2 for even i, #3 for odd i; the other
+	// positions rotate with i so that a quick run covers every mode x archive level.
 	modes := []gcSpec{{Mode: "default", Archive: 1}, {Mode: "full", Archive: 0}, {Mode: "default", Archive: 0}, {Mode: "full", Archive: 1}, {Mode: "shallow"}}
 	p.GCs = []gcSpec{modes[i%len(modes)], modes[(i+1+r.Intn(3))%len(modes)], modes[(i+2+r.Intn(2))%len(modes)]}
+	if i%3 != 2 {
+		p.GCs[0] = gcSpec{Mode: "default", Archive: i % 2}
+	}
+	if i%2 == 0 {
+		p.GCs[1] = gcSpec{Mode: "full", Archive: (i / 2) % 2}
+	} else {
+		p.GCs[2] = gcSpec{Mode: "full", Archive: (i / 2) % 2}
+	}
 	p.GCs[2].Kill = true
 	if p.GCs[2].Mode == "shallow" {
 		p.GCs[2] = gcSpec{Mode: "default", Archive: r.Intn(2), Kill: true}
+	}
+	// every mutation goes into one of the two gaps; for even i the root-moving ones must precede collection #2 (the --full one)
+	for _, m := range muts {
+		g := r.Intn(2)
+		if i%2 == 0 && m.Root != "" {
+			g = 0
+		}
+		p.Gaps[g] = append(p.Gaps[g], m)
 	}
 	// sessions that hold uncommitted state across the first collection
 	if feat("tx") {
@@ -327,14 +396,17 @@ func genC08(r *rand.Rand, i int, remoteDir string) *c08plan {
 
 // c08repo is the run-time state of one repository.
 type c08repo struct {
-	plan   *c08plan
-	sess   map[string]*sqlrig.Session
-	snaps  map[string]map[string]string
-	heads  map[string]string
-	probes map[string]string // name -> commit hash expected to be garbage
-	fp     sqlrig.Fingerprint
-	ok     bool
-	txConf string // conflicts seen by the in-transaction merge before GC
+	plan        *c08plan
+	sess        map[string]*sqlrig.Session
+	snaps       map[string]map[string]string
+	heads       map[string]string
+	probes      map[string]string // name -> commit hash expected to be garbage
+	fp          sqlrig.Fingerprint
+	ok          bool
+	txConf      string          // conflicts seen by the in-transaction merge before GC
+	defaultDone bool            // a default-mode collection has completed (the old generation is populated)
+	armed       map[string]bool // root classes that alone keep old-generation data alive (mutated after a default collection)
+	applied     map[string]bool // gap mutations that were applied
 }
 
 func snapshot(x *sqlrig.Session, tables []string) map[string]string {
@@ -617,6 +689,14 @@ func c08states(c *rig.Ctx) {
 			return
 		}
 		tl.inc("c08.gc_runs")
+		if g.Mode == "full" {
+			for root := range rp.armed {
+				tl.inc("c08.full_gc_after_default_gc_with_old_gen_only_" + root + "_root")
+			}
+		}
+		if g.Mode == "default" {
+			rp.defaultDone = true
+		}
 		tl.inc("c08.gc_runs." + g.String())
 		_, b1 := dirSize(filepath.Join(dataDir, p.DB, ".dolt", "noms"))
 		if b1 < b0 {
@@ -660,6 +740,51 @@ func c08states(c *rig.Ctx) {
 	}
 	workers := 6
 
+	// mutate applies the ref mutations of gap k and re-bases the comparison (the repository changed on purpose)
+	mutate := func(rp *c08repo, k int) {
+		if len(rp.plan.Gaps[k]) == 0 {
+			return
+		}
+		if rp.armed == nil {
+			rp.armed, rp.applied = map[string]bool{}, map[string]bool{}
+		}
+		for _, m := range rp.plan.Gaps[k] {
+			sess := map[string]*sqlrig.Session{}
+			var err error
+			for _, o := range m.Ops {
+				x := sess[o.Sess]
+				if x == nil {
+					if x, err = srv.Open(rp.plan.DB); err != nil {
+						break
+					}
+					sess[o.Sess] = x
+				}
+				if _, err = x.Query(o.SQL); err != nil {
+					err = fmt.Errorf("%s: %w", o.SQL, err)
+					break
+				}
+				if o.Snap != "" {
+					rp.snaps[o.Snap] = snapshot(x, rp.plan.Tables)
+				}
+			}
+			for _, x := range sess {
+				x.Close()
+			}
+			if err != nil {
+				c.Note(fmt.Sprintf("%s: mutation %s failed: %v", rp.plan.DB, m.Name, trunc(err.Error(), 200)))
+				tl.inc("c08.mutation_failed")
+				continue
+			}
+			rp.applied[m.Name] = true
+			tl.inc("c08.mutation." + m.Name)
+			if m.Root != "" && rp.defaultDone {
+				rp.armed[m.Root] = true
+			}
+		}
+		rp.fp = nil
+		observe(rp, fmt.Sprintf("after the ref mutations of gap %d", k+1), gcSpec{})
+	}
+
 	// phase 1 (concurrent, session-aware controller): build, observe, two collections
 	run(workers, true, func(rp *c08repo) {
 		build(rp)
@@ -683,7 +808,9 @@ func c08states(c *rig.Ctx) {
 					s.Close()
 					delete(rp.sess, "tx")
 					rp.fp = nil // the commit changed the repository: re-base the comparison
-					observe(rp, "after committing the open transaction", gcSpec{})
+					if len(rp.plan.Gaps[0]) == 0 {
+						observe(rp, "after committing the open transaction", gcSpec{})
+					}
 				}
 				if s := rp.sess["tm"]; s != nil {
 					r, err := s.Query("select `table`, num_conflicts from dolt_conflicts")
@@ -703,6 +830,7 @@ func c08states(c *rig.Ctx) {
 					delete(rp.sess, "tm")
 				}
 			}
+			mutate(rp, k)
 		}
 	})
 
@@ -768,6 +896,8 @@ func c08states(c *rig.Ctx) {
 	tl.flush(c)
 	c.Require(tl.get("c08.gc_runs_collected_garbage") > 0, "no dolt_gc run collected a garbage commit")
 	c.Require(tl.get("c08.gc_runs") >= n, "too few successful collections")
+	c.Require(tl.get("c08.full_gc_after_default_gc_with_old_gen_only_tag_root") > 0, "no --full collection ran after a default collection with a tag as the only root of old-generation data")
+	c.Require(tl.get("c08.full_gc_after_default_gc_with_old_gen_only_workingset_root") > 0, "no --full collection ran after a default collection with a working set as the only root of old-generation data")
 	c.Require(tl.get("c08.state.merge.head-moved") > 0, "no repository with a merge state that alone references the pre-merge head")
 	for _, f := range []string{"merge", "cherrypick", "revert", "rebase", "stash", "tag", "remote"} {
 		c.Require(tl.get("c08.state."+f) > 0, "no repository in state "+f)
@@ -919,6 +1049,56 @@ func consume(c *rig.Ctx, srv *sqlrig.Server, rp *c08repo, tl *tally, viol func(s
 			} else {
 				tl.inc("c08.consumed.remote")
 			}
+			x.Close()
+		}
+	}
+	// states created by the gap mutations
+	rowAt := func(key, rev string, pk int) {
+		if x := open("main"); x != nil {
+			if n, err := x.Scalar(fmt.Sprintf("select count(*) from t0 as of '%s' where pk = %d", rev, pk)); err != nil || n != "1" {
+				viol("c08/consume/"+key, fmt.Sprintf("row %d of the commit only %s keeps alive: count=%s err=%v", pk, rev, n, err), witness(rp, nil))
+			} else {
+				tl.inc("c08.consumed." + key)
+			}
+			x.Close()
+		}
+	}
+	if rp.applied["tag-then-delete-branch"] {
+		rowAt("gap-tag", "vog", 6100)
+	}
+	if rp.applied["tag-then-branch-f-backwards"] {
+		rowAt("gap-tag", "vback", 6401)
+	}
+	if rp.applied["soft-reset"] {
+		if x := open("og_ws"); x != nil {
+			if n, err := x.Scalar("select count(*) from t0 where pk in (6200, 6201)"); err != nil || n != "2" {
+				viol("c08/consume/gap-workingset", fmt.Sprintf("rows kept only by the staged/working root after a soft reset: count=%s err=%v", n, err), witness(rp, nil))
+			} else if _, err := x.Query("call dolt_commit('-m','recommit after soft reset')"); err != nil {
+				viol("c08/consume/gap-workingset", "committing the staged root after the collections failed: "+err.Error(), witness(rp, nil))
+			} else {
+				tl.inc("c08.consumed.gap-workingset")
+			}
+			x.Close()
+		}
+	}
+	if rp.applied["stash-then-drop-commit"] {
+		if x := open("og_st"); x != nil {
+			if _, err := x.Query("call dolt_stash('pop','s2')"); err != nil {
+				viol("c08/consume/gap-stash", "popping the stash whose head commit only the stash keeps alive failed: "+err.Error(), witness(rp, nil))
+			} else if n, err := x.Scalar("select count(*) from t0 where b = 'dirty-og'"); err != nil || n != "1" {
+				viol("c08/consume/gap-stash", fmt.Sprintf("stashed edit after pop: count=%s err=%v", n, err), witness(rp, nil))
+			} else {
+				tl.inc("c08.consumed.gap-stash")
+			}
+			x.Close()
+		}
+	}
+	if rp.applied["conflicted-merge-then-delete-source"] {
+		if x := open("og_m"); x != nil {
+			if n, err := x.Scalar("select count(*) from dolt_conflicts_t0"); err != nil || n == "0" {
+				viol("c08/consume/gap-mergestate", fmt.Sprintf("conflict rows of the merge whose source commit only the merge state keeps alive: count=%s err=%v", n, err), witness(rp, nil))
+			}
+			check("gap-mergestate", x, "call dolt_merge('--abort')", "ogmerge.pre")
 			x.Close()
 		}
 	}
